@@ -781,6 +781,11 @@ def run(ctx):
                        "that reused a freed closure, or a call of a live callback in a history that crossed a page "
                        "boundary (distinct by history, handle, route). evaluations = operations executed.")
     ctx.assumptions += [
+        "coq/C29/Gen.v: the assignments to allocate_num_pages / count, the mmap() size and the threading-loop bound of "
+        "more_core(), regenerated from src/c/malloc_closure.h (POSIX #ifdef branch) by a fail-closed statement parser; "
+        "C29_gen_threaded_inside_mapping and C29_gen_matches_model are re-proved on it each run; if they break, "
+        "first_overflow on the regenerated program gives the number of live callbacks at which it manifests and the "
+        "bulk test is run with that many",
         "hand-written model C29/Model.v of malloc_closure.h + b_callback/cdataowninggc_dealloc; tied by this "
         "run's differential histories (addresses compared as first-appearance numbers)",
         "mmap() returns memory disjoint from every earlier mapping (built into the (block, slot) addresses)",
@@ -793,7 +798,9 @@ def run(ctx):
 
 MANIFEST = dict(
     technique="Coq proof (allocator invariant by induction over all create/fail/drop/call histories, unbounded "
-              "page growth) + differential histories on real callbacks crossing page boundaries",
+              "page growth; the arithmetic of more_core() regenerated from the source text on every run and proved "
+              "to keep every threaded item inside the mapped block) + differential histories on real callbacks "
+              "crossing page boundaries + > 20000 callbacks alive at once",
     text="Proof: in the model of malloc_closure.h (free_list, more_core growth, alloc/free) and of b_callback / "
          "cdataowninggc_dealloc, every reachable state has a duplicate-free free list disjoint from the "
          "duplicate-free set of live closure addresses; each allocation returns an address no live callback has; "
